@@ -254,7 +254,7 @@ def post_tm(ret, token, a, k):
         return
     for i, (g, m) in enumerate(zip(got_p, M)):
         if abs(g - m) > tol_p:
-            key = "score-to-performance-map-misses-a-knot" + ("-onset-with-only-ornaments-kept" if (dropped and ro) else "")
+            key = "score-to-performance-map-misses-a-knot"
             emit(key, f"map(score onset {U[i]}) = {g}, mean performed onset of the notes written there is {m}", dict(w, knot=i))
             break
     increasing = all(b > a_ for a_, b in zip(M, M[1:]))
@@ -265,7 +265,7 @@ def post_tm(ret, token, a, k):
             slopes = [abs((U[j + 1] - U[j]) / (M[j + 1] - M[j])) for j in (i - 1, i) if 0 <= j < len(U) - 1]
             allowed = tol_b + (max(slopes) if slopes else 0.0) * 1e-6 * max(1.0, abs(M[i]))
             if abs(g - u) > allowed:
-                key = "performance-to-score-map-misses-a-knot" + ("-onset-with-only-ornaments-kept" if (dropped and ro) else "")
+                key = "performance-to-score-map-misses-a-knot"
                 emit(key, f"map(mean performed onset {M[i]}) = {g}, the notes are written at score onset {u}", dict(w, knot=i))
                 break
     if len(knots) > 1:
@@ -360,10 +360,12 @@ def diagnose(rec, fails):
         return out
     keycount = collections.Counter(v["key"] for v in s_info.values())
     rest = []
+    # notes sharing (score onset, pitch) with another matched note: named as that mechanism only if nothing else fails
+    all_in_equal_groups = all(f[1] in s_info and keycount[s_info[f[1]]["key"]] > 1 for f in fails)
     for f in fails:
         comp, sid = f[0], f[1]
         info = s_info.get(sid)
-        if info is not None and keycount[info["key"]] > 1:
+        if info is not None and keycount[info["key"]] > 1 and all_in_equal_groups:
             out.setdefault("notes-of-equal-score-onset-and-pitch-get-each-others-parameters", []).append(f)
         elif info is not None and comp == "duration" and not info["dur"] > 0:
             out.setdefault("grace-note-duration-not-reproduced", []).append(f)
@@ -585,7 +587,8 @@ def run_case(ctx, case, rng, bucket, label):
                 sk, pk = rng.choice(sorted(score_kinds)), rng.choice(sorted(perf_kinds))
                 _CFG = (norm, method)
                 try:
-                    res = ctx.call(PC.encode_performance, score_kinds[sk], perf_kinds[pk], al(), beat_normalization=norm, tempo_smooth=method)
+                    res = ctx.call(PC.encode_performance, score_kinds[sk], perf_kinds[pk], al(), beat_normalization=norm, tempo_smooth=method,
+                                   return_u_onset_idx=rng.random() < 0.25)
                 except core.PartituraRaised as pr:
                     _COLLECT.append((f"raise:{type(pr.exc).__name__}@{pr.where}", f"encode_performance raised {type(pr.exc).__name__}: {pr.exc}",
                                      {"case": _WITNESS, "traceback": pr.tb[-800:]}, _CFG))
@@ -593,7 +596,8 @@ def run_case(ctx, case, rng, bucket, label):
                 params, snote_ids = res[0], res[1]
                 dk = rng.choice(["part", "score"])
                 try:
-                    ctx.call(PC.decode_performance, score_kinds[dk], params, snote_ids=snote_ids, beat_normalization=norm)
+                    ctx.call(PC.decode_performance, score_kinds[dk], params, snote_ids=snote_ids, beat_normalization=norm,
+                             return_alignment=rng.random() < 0.25)
                     n_dec += 1
                 except core.PartituraRaised as pr:
                     _COLLECT.append((f"raise:{type(pr.exc).__name__}@{pr.where}", f"decode_performance raised {type(pr.exc).__name__}: {pr.exc}",
